@@ -299,6 +299,16 @@ CLAIMED = {
         technique='symbolic execution of the real Python and the real Scala text into bit-vector terms (pyvc bv mode + scvc), equivalence and round-trip obligations by z3; integer lemma for uniqueness; bounded enumeration for the float closed form',
         design_ref='7/C34',
     ),
+    'C33': dict(
+        text='Two layers on the real source. Bytes: every ByteWriter.write_X / ByteReader.read_X of hail/utils/byte_reader.py is executed symbolically over a byte list: a write appends exactly calcsize(fmt) bytes (4/8/4/8, 1 for bool/byte), a read placed on that image returns the value and advances by the same width (struct.pack/unpack uninterpreted, inverse only for the SAME format). '
+        'Tokens: writer contracts for tarray/tstruct/ttuple (loop invariants over 64-bit vectors: bit t of missing byte k <=> slot 8k+t missing, bits beyond the length 0, exactly ceil(n/8) bytes, after the int32 length and before the data; present slots in order at header+rank(i), each by its own codec, missing slots write nothing), tdict (int32 length + one required key/value struct per item in insertion order, no missing bytes), tstr (int32 = length of the UTF-8 encoding, not of the str), the five fixed-width primitives, tset/tinterval/tlocus (delegation to the array/struct representation), tndarray writer (int64 shape, then the elements in the order of np.nditer(order=F)), HailType._missing/_to_encoding/_from_encoding, lookup_bit; '
+        'reader contracts take the identical writer postcondition as precondition and prove: every read meets a token of its kind, the cursor ends at the end of the written data, the decoded value is the original with None for missing slots (round-trip composition lemma per type constructor, for all values and lengths). '
+        'Engine side: the arms of EType.fromPythonTypeEncoding and the E-type files are compared as text with the layout proved (constructor, required flags, field order, arm order).',
+        note=COMMON_NOTE + 'Assumed: struct.pack/unpack inverse for equal formats and in-range values; "=" is native byte order (little-endian host); utf-8 encode/decode inverse, length of the encoding uninterpreted; the element codec is abstracted to one ELEM token (induction hypothesis) and the structural induction over nested types, the token-to-bytes concatenation and the induction behind rank monotonicity are paper steps; equality up to the container class (frozenlist/frozendict/Struct), missing decodes as None; numpy nditer(order="F") is column-major order. '
+        'Undecided: tndarray reader and n-d round trip, the dead numeric fast path of tndarray (would write C-ordered arrays row-major if it were live), the Scala decoders themselves (text scan only), tcall is C34. Failing obligations are reported as violations only with an input replayed on the real classes over the real ByteReader/ByteWriter against a reference encoder written from the property statement.',
+        technique='loop-invariant and stream contracts on the real source (pyvc symbolic execution, bit-vector missing bytes, ghost token stream, reader-on-writer-postcondition composition) -> z3; AST/text scans for class representation facts and the Scala E-type table',
+        design_ref='7/C33',
+    ),
 }
 
 NOT_YET = 'not yet brought within the verifier\'s reach in this build (planned in DESIGN.md section 7); no claim is made'
